@@ -690,6 +690,15 @@ func (u *Unmarshaler) processFieldWithEnvValue(fieldType reflect.Type, value ref
 	}
 
 	fieldKind := fieldType.Kind()
+	// 按类型而不是 Kind 判断：time.Duration 的 Kind 是 Int64，普通 int64 字段不是时长
+	if fieldType == durationType {
+		if err := fillDurationValue(fieldKind, value, envVal); err != nil {
+			return fmt.Errorf("用环境变量解组字段 %q 出错，%w", fullName, err)
+		}
+
+		return nil
+	}
+
 	switch fieldKind {
 	case reflect.Bool:
 		val, err := strconv.ParseBool(envVal)
@@ -699,16 +708,12 @@ func (u *Unmarshaler) processFieldWithEnvValue(fieldType reflect.Type, value ref
 
 		value.SetBool(val)
 		return nil
-	case durationType.Kind():
-		if err := fillDurationValue(fieldKind, value, envVal); err != nil {
-			return fmt.Errorf("用环境变量解组字段 %q 出错，%w", fullName, err)
-		}
-
-		return nil
 	case reflect.String:
 		value.SetString(envVal)
 		return nil
 	default:
+		// 指针字段需要先分配，processFieldPrimitiveWithJSONNumber 会写入 value.Elem()
+		maybeNewValue(fieldType, value)
 		return u.processFieldPrimitiveWithJSONNumber(fieldType, value, json.Number(envVal), opts, fullName)
 	}
 }
